@@ -1,5 +1,207 @@
+(* C03 -- Ordered collection search returns the first match of the flattened search path.
+   Statements only; every proof is `exact <lemma>` from Proofs/ChainProofs{A,B,C,D,E}.v.  The model is
+   coq/Model/Chain.v (hand-written, faithful to registry/collections/_base.py, sql_registry.findDataset,
+   direct_query_driver/_driver.py and the legacy find-first); it is tied to /repo by the correspondence run
+   of harness/props/c03.py (same histories on the real Butler and on this model, every step compared).
+
+     run init ops      the state after ANY sequence of operations (register / remove collection, put /
+                       associate, redefine / prepend / extend / remove-from chain, valid or refused)
+     wf s              acyclic (rows s) /\ every row links a CHAINED parent to an existing child /\ positions
+                       unique per parent (the primary key) /\ one dataset per (collection, type, data ID) /\
+                       summaries are supersets of the contents /\ collection names unique
+     reachs rs a b     a = b or b is reachable from a through chain rows
+*)
 From Coq Require Import ZArith NArith List Bool.
-From V Require Import Model.Chain.
-Theorem placeholder : init = init.
-Proof. reflexivity. Qed.
-Print Assumptions placeholder.
+From V Require Import Model.Chain Proofs.ChainProofsA Proofs.ChainProofsB Proofs.ChainProofsC Proofs.ChainProofsD
+  Proofs.ChainProofsE.
+Import ListNotations.
+
+(* ---- chain definitions can never become cyclic: every history, unbounded ---- *)
+Theorem acyclic_inv : forall ops, acyclic (rows (run init ops)).
+Proof. exact acyclic_inv_p. Qed.
+Print Assumptions acyclic_inv.
+
+Theorem wf_inv : forall ops, wf (run init ops).
+Proof. exact wf_inv_p. Qed.
+Print Assumptions wf_inv.
+
+(* the position arithmetic (min - n on prepend, max + 1 on extend) never collides with a surviving row:
+   the INSERT can not violate PRIMARY KEY (parent, position) *)
+Theorem positions_unique_inv : forall ops p, NoDup (map rpos (prows (rows (run init ops)) p)).
+Proof. exact pk_inv_p. Qed.
+Print Assumptions positions_unique_inv.
+
+(* the cycle check refuses exactly the edits that would close a cycle (sound and complete) *)
+Theorem cycle_check_exact : forall s k p cs, wf s -> k <> KRemove -> forallb (exists_c s) cs = true ->
+  is_chained s p = true ->
+  (snd (edit s k p cs) = Refused ECycle <-> exists c, In c cs /\ reachs (rows s) c p).
+Proof. exact edit_cycle_iff_p. Qed.
+Print Assumptions cycle_check_exact.
+
+(* all refusal cases of a chain edit, in the order the code raises them: unknown child, cycle (self
+   reference included: order .. p contains p), unknown parent, parent not CHAINED *)
+Theorem edit_outcome : forall s k p cs, wf s ->
+  snd (edit s k p cs) =
+    if negb (forallb (exists_c s) cs) then Refused EMissing
+    else if match k with KRemove => false | _ => is_chained s p end
+            && existsb (fun c => memN p (match order (fuel_of s) s c with Some l => l | None => [] end)) cs
+         then Refused ECycle
+    else match ctype_of (colls s) p with
+         | None => Refused EMissing
+         | Some CChained => Done
+         | Some _ => Refused ECollType
+         end.
+Proof. exact edit_outcome_p. Qed.
+Print Assumptions edit_outcome.
+
+(* ---- fuel adequacy: under the invariant the depth-first expansion never runs out of fuel, and more
+        fuel changes nothing ---- *)
+Theorem flatten_fuel_ok : forall s ns, wf s ->
+  order_list (fuel_of s) s ns <> None /\
+  forall f', (fuel_of s <= f')%nat -> order_list f' s ns = order_list (fuel_of s) s ns.
+Proof. exact flatten_fuel_ok_p. Qed.
+Print Assumptions flatten_fuel_ok.
+
+Theorem flatten_total : forall s ns, wf s -> forallb (exists_c s) ns = true ->
+  exists path, flatten s ns = Ok path /\ NoDup path.
+Proof. exact flatten_total_p. Qed.
+Print Assumptions flatten_total.
+
+(* the premise is needed: on a cyclic definition the expansion does not end (the implementation hangs) *)
+Theorem cyclic_definition_never_ends : ~ acyclic (rows cyc_state) /\ expand cyc_state [1%N] = Err EFuel.
+Proof. exact cyclic_runs_out_p. Qed.
+Print Assumptions cyclic_definition_never_ends.
+
+(* ---- every chain edit yields exactly the documented child order (through the integer positions,
+        negative ones included); nothing else changes ---- *)
+Theorem edit_orders : forall s k p cs s', edit s k p cs = (s', Done) ->
+  children s' p =
+    match k with
+    | KRedefine => dedup cs
+    | KPrepend => dedup cs ++ without cs (children s p)
+    | KExtend => without cs (children s p) ++ dedup cs
+    | KRemove => without cs (children s p)
+    end /\
+  (forall q, q <> p -> children s' q = children s q) /\
+  colls s' = colls s /\ cont s' = cont s.
+Proof. exact edit_orders_p. Qed.
+Print Assumptions edit_orders.
+
+(* a refused operation (of any kind) changes nothing *)
+Theorem refused_changes_nothing : forall s o s' e, step s o = (s', Refused e) -> s' = s.
+Proof. exact step_refused_same. Qed.
+Print Assumptions refused_changes_nothing.
+
+(* ---- find-first: the three formulations return the first match of the flattened path ---- *)
+(* SqlRegistry.findDataset / Butler.find_dataset / Butler.get: minimum rank over the fetched rows, in
+   whatever order the database returns them, after pruning by summaries *)
+Theorem find_rank_is_first_match : forall s ty d ns path, wf s -> flatten s ns = Ok path ->
+  find_rank s ty d ns = Ok (first_match (cont s) ty d path).
+Proof. exact find_rank_first. Qed.
+Print Assumptions find_rank_is_first_match.
+
+(* legacy Registry.queryDatasets(findFirst=True): ROW_NUMBER window, shortcut for <= 1 collection *)
+Theorem find_legacy_is_first_match : forall s gc ty d ns path, wf s -> flatten s ns = Ok path ->
+  find_legacy s gc ty d ns = Ok (opt_list (first_match (cont s) ty d path)).
+Proof. exact find_legacy_first. Qed.
+Print Assumptions find_legacy_is_first_match.
+
+(* the two flattening algorithms of the code base -- resolve_wildcard (expand, drop chains, keep first
+   occurrences) and DirectQueryDriver._filter_collections (`done` set that also stops re-expansion) --
+   return the same path *)
+Theorem two_flattenings_agree : forall s ns, wf s -> flattenB s ns = flatten s ns.
+Proof. exact flattenB_flatten_p. Qed.
+Print Assumptions two_flattenings_agree.
+
+(* new query system, Butler.query_datasets(find_first=True): the window over the path of _filter_collections *)
+Theorem find_window_is_first_match : forall s gc ty d ns path, wf s -> flatten s ns = Ok path ->
+  find_window s gc ty d ns = Ok (opt_list (first_match (cont s) ty d path)).
+Proof. exact find_window_first_full. Qed.
+Print Assumptions find_window_is_first_match.
+
+Theorem three_agree : forall s gc ty d ns path, wf s -> flatten s ns = Ok path ->
+  find_rank s ty d ns = Ok (first_match (cont s) ty d path) /\
+  find_window s gc ty d ns = Ok (opt_list (first_match (cont s) ty d path)) /\
+  find_legacy s gc ty d ns = Ok (opt_list (first_match (cont s) ty d path)).
+Proof. exact three_agree_p. Qed.
+Print Assumptions three_agree.
+
+(* ... and therefore on the state after ANY history, for any search path over existing collections *)
+Theorem three_agree_every_history : forall ops gc ty d ns, forallb (exists_c (run init ops)) ns = true ->
+  exists path, flatten (run init ops) ns = Ok path /\
+    find_rank (run init ops) ty d ns = Ok (first_match (cont (run init ops)) ty d path) /\
+    find_window (run init ops) gc ty d ns = Ok (opt_list (first_match (cont (run init ops)) ty d path)) /\
+    find_legacy (run init ops) gc ty d ns = Ok (opt_list (first_match (cont (run init ops)) ty d path)).
+Proof. exact three_agree_hist_p. Qed.
+Print Assumptions three_agree_every_history.
+
+(* pruning the path by collection summaries never changes the answer *)
+Theorem summary_pruning_irrelevant : forall s gc ty d path, summ_ok s ->
+  first_match (cont s) ty d (prune s gc ty d path) = first_match (cont s) ty d path.
+Proof. exact prune_first. Qed.
+Print Assumptions summary_pruning_irrelevant.
+
+(* ---- a CHAINED collection is equivalent to its child list, anywhere in a search path (equal flattened
+        paths, hence equal answers of every formulation) ---- *)
+Theorem chain_is_flattening : forall s pre c post, wf s -> is_chained s c = true ->
+  flatten s (pre ++ [c] ++ post) = flatten s (pre ++ children s c ++ post).
+Proof. exact chain_is_flattening_p. Qed.
+Print Assumptions chain_is_flattening.
+
+(* ---- adding a collection (plain or chained, anywhere in the path) none of whose flattened members has
+        a match never changes the answer ---- *)
+Theorem no_match_irrelevant : forall s ty d pre x post P Px,
+  flatten s (pre ++ post) = Ok P -> flatten s [x] = Ok Px ->
+  (forall c, In c Px -> lookup_ent (cont s) c ty d = None) ->
+  exists P', flatten s (pre ++ [x] ++ post) = Ok P' /\ first_match (cont s) ty d P' = first_match (cont s) ty d P.
+Proof. exact no_match_irrelevant_p. Qed.
+Print Assumptions no_match_irrelevant.
+
+(* repeats in a search path are irrelevant *)
+Theorem repeats_irrelevant : forall cn ty d l, first_match cn ty d (dedup l) = first_match cn ty d l.
+Proof. exact first_match_dedup. Qed.
+Print Assumptions repeats_irrelevant.
+
+(* ---- non-vacuity: a history with chains nested to depth 3, prepend into negative positions, a cycle
+        attempt through three levels, shadowing decided below the head of the path ---- *)
+Definition demo_ops : list op :=
+  [ OReg 0 CRun; OReg 1 CRun; OReg 2 CTagged; OReg 4 CChained; OReg 5 CChained; OReg 6 CChained;
+    OSet 0 0 1 10; OSet 1 0 1 11; OSet 2 0 1 11;
+    OEdit KRedefine 4 [0; 1; 0]%N;              (* 4 -> (0, 1) *)
+    OEdit KRedefine 5 [4; 2]%N;                 (* 5 -> (4, 2) *)
+    OEdit KExtend 6 [5]%N;                      (* 6 -> (5): depth 3 *)
+    OEdit KPrepend 4 [2; 1]%N;                  (* 4 -> (2, 1, 0): positions -2, -1, 0 *)
+    OEdit KRedefine 4 [6]%N ].                  (* cycle 4 -> 6 -> 5 -> 4: refused *)
+Definition demo : st := run init demo_ops.
+
+Example demo_depth3 : flatten demo [6%N] = Ok [2; 1; 0]%N /\ children demo 4 = [2; 1; 0]%N /\
+  map rpos (prows (rows demo) 4) = [0; -2; -1]%Z.
+Proof. vm_compute. repeat split. Qed.
+Example demo_cycle_refused :
+  snd (step (run init (firstn 13 demo_ops)) (OEdit KRedefine 4 [6]%N)) = Refused ECycle.
+Proof. vm_compute. reflexivity. Qed.
+Example demo_self_refused : snd (edit demo KExtend 5 [0; 5]%N) = Refused ECycle.
+Proof. vm_compute. reflexivity. Qed.
+Example demo_unknown_child : snd (edit demo KPrepend 5 [0; 9]%N) = Refused EMissing.
+Proof. vm_compute. reflexivity. Qed.
+Example demo_parent_not_chained : snd (edit demo KExtend 0 [1]%N) = Refused ECollType.
+Proof. vm_compute. reflexivity. Qed.
+Example demo_three_agree :
+  find_rank demo 0 1 [6; 0]%N = Ok (Some 11%N) /\ find_window demo true 0 1 [6; 0]%N = Ok [11%N] /\
+  find_legacy demo false 0 1 [6; 0]%N = Ok [11%N] /\ first_match (cont demo) 0 1 [2; 1; 0]%N = Some 11%N /\
+  find_rank demo 0 1 [0; 6]%N = Ok (Some 10%N).
+Proof. vm_compute. repeat split. Qed.
+Example demo_wf_hyp : exists path, flattenB demo [6; 0]%N = Ok path /\ NoDup path /\ flatten demo [6; 0]%N = Ok path.
+Proof.
+  exists [2; 1; 0]%N. split; [vm_compute; reflexivity|]. split; [|vm_compute; reflexivity].
+  repeat constructor; simpl; intuition discriminate.
+Qed.
+
+(* ---- a limit of the position arithmetic that the model exposes (not reproducible on SQLite): positions
+        are not re-packed, so 32769 accepted prepends of the same child leave the chain unchanged but
+        push the position below the range of the SMALLINT column (PostgreSQL would refuse the edit) ---- *)
+Theorem position_width_exceeded :
+  snd (drift 32769) = true /\ children (fst (drift 32769)) 4 = [0%N] /\
+  map rpos (rows (fst (drift 32769))) = [(-32769)%Z].
+Proof. exact position_drift_p. Qed.
+Print Assumptions position_width_exceeded.
